@@ -371,7 +371,7 @@ def processCm (cfg : Cfg) (s : St) (now : Nat) (mid : MessageId) (dest : Nat) (d
       let h := Tp22.buffer_hash session dest src
       match s.snd.get? h with
       | some b =>
-        if b.state == S_WAITING_CTS then { st := { s with snd := s.snd.set h { b with state := S_FINISHED, deadline := now } } }
+        if b.state == S_WAITING_CTS then { st := { s with snd := s.snd.set h { b with state := S_FINISHED, deadline := now } }, outs := [.wake] }
         else { st := s }
       | none => { st := s }
     else { st := s, err := some .RuntimeError }
